@@ -23,6 +23,15 @@ RULE = ("CBOR: every length 0..300 plus 65534..65537 and 70000, truncations and 
         "(300k, 301k]; the exception class of _parse_bcur_helper (BCURStringFormatError) on non-integer x / y on either side and "
         "on non-str input incl. a str subclass; non-canonical CBOR wrappers (wider prefix, trailing bytes, short read) with a "
         "right digest and bc32 checksum; constructors handed encoded= / checksum= of the same and of other data; __repr__. "
+        "Character classes of the bech32 alphabet (9 digits, 23 letters), CONSTRUCTED by grinding the checksum with an own "
+        "polymod because random payloads never give them: bc32 texts that are digits only (no cased character), letters only, "
+        "one letter among digits (data part / checksum part), one digit among letters, two letters among digits — each in lower "
+        "case, upper case and, from two letters on, mixed case (single odd letter first / middle / last, data and checksum part "
+        "in different case: must be refused), for every symbol count mod 8 with zero and non-zero padding; BCUR messages whose "
+        "whole payload text is digits only (payloads of 17, 19, 20, 22 bytes: CBOR header 0x50..0x57 is the digit '2'), digits "
+        "after the header, one letter, letters only, in five case patterns (lower, UR:BYTES/… upper, scheme upper only, rest "
+        "upper only, alternating) through BCURSingle.parse, BCURMulti.parse, _parse_bcur_helper, bcur_decode; header fields "
+        "(58-character checksum, payload) of every class through the charset check. Expectations: the module's own bc32 decoder. "
         "Generators build every string with the reference codecs of the module, not with the library.")
 TRUSTED = ["hashlib (sha256) — a universally quantified function in the theorems",
            "binascii base64 wrapping of BCURSingle/BCURMulti (payloads are byte strings in the model)",
@@ -669,6 +678,8 @@ def p_ctor(payload, other):
             for kw in ({"encoded": oenc}, {"checksum": ochk}, {"encoded": enc, "checksum": ochk},
                        {"encoded": oenc, "checksum": chk}, {"encoded": enc[:-1]}, {"checksum": chk[:-1]},
                        {"encoded": enc.upper()}):
+                if kw.get("encoded") == enc and "checksum" not in kw:
+                    continue                                  # a digit-only text is its own upper()
                 o, e = _exc(cls, text_b64=t, **kw)
                 if e is None:
                     return f"{cls.__name__}(text, {sorted(kw)}) accepts an encoding / checksum of other data"
@@ -680,13 +691,163 @@ def p_ctor(payload, other):
     return None
 
 
+# ---------------------------------------------------------------- character classes of the bech32 alphabet
+# The alphabet has 9 digits (0 2 3 4 5 6 7 8 9) and 23 letters.  A text without any letter equals both its lower()
+# and its upper() and has NO cased character (str.islower() and str.isupper() are both False); a text with a single
+# letter cannot be mixed-case; a text without any digit is isalpha().  Random payloads practically never give a
+# digit-only text ((9/32)^len), so such texts are CONSTRUCTED: the data symbols are drawn from the wanted class per
+# position and the last few are ground until the six checksum symbols (own polymod, own table) fall into their
+# classes as well.  Expectations come from ref_bc32_dec below, never from the library.
+
+_DIG = [i for i, c in enumerate(B32) if c in "0123456789"]
+_LET = [i for i in range(32) if i not in _DIG]
+_ALL = list(range(32))
+_GENTAB = []
+for _top in range(32):
+    _g = 0
+    for _i, _c in enumerate([0x3b6a57b2, 0x26508e6d, 0x1ea119fa, 0x3d4233dd, 0x2a1462b3]):
+        if (_top >> _i) & 1:
+            _g ^= _c
+    _GENTAB.append(_g)
+
+
+def _pm_state(vals, chk=1):
+    for v in vals:
+        chk = ((chk & 0x1ffffff) << 5) ^ v ^ _GENTAB[chk >> 25]
+    return chk
+
+
+def grind(r, data_cls, chk_cls, prefixes=400):
+    """5-bit symbols dd + 6 bc32 checksum symbols with dd[i] in data_cls[i] and checksum[j] in chk_cls[j];
+    None when there is no such text (or none was found)"""
+    m = len(data_cls)
+    if any(not c for c in data_cls):
+        return None
+    k, space = 0, 1
+    while k < m and space < 30000:
+        k += 1
+        space *= len(data_cls[m - k])
+    for _ in range(prefixes if m > k else 1):
+        prefix = [r.choice(c) for c in data_cls[:m - k]]
+        st = _pm_state([0] + prefix)
+        pools = [r.sample(c, len(c)) for c in data_cls[m - k:]]
+        for tail in itertools.product(*pools):
+            pm = _pm_state(tail + (0, 0, 0, 0, 0, 0), st) ^ 0x3fffffff
+            if all(((pm >> 5 * (5 - j)) & 31) in chk_cls[j] for j in range(6)):
+                return prefix + list(tail) + [(pm >> 5 * (5 - j)) & 31 for j in range(6)]
+    return None
+
+
+def ref_bc32_dec(t):
+    """independent bc32 decoder on ASCII text: bytes, or None = must be refused (None or an exception)"""
+    if any("A" <= c <= "Z" for c in t) and any("a" <= c <= "z" for c in t):
+        return None                                             # mixed case
+    t = "".join(chr(ord(c) + 32) if "A" <= c <= "Z" else c for c in t)
+    if len(t) < 6 or any(c not in B32 for c in t):
+        return None
+    syms = [B32.index(c) for c in t]
+    if ref_polymod([0] + syms) != 0x3fffffff:
+        return None
+    bits = "".join(format(s, "05b") for s in syms[:-6])
+    whole = len(bits) // 8 * 8
+    if len(bits) - whole >= 5 or "1" in bits[whole:]:
+        return None                                             # not a whole number of bytes / non-zero padding
+    return bytes(int(bits[i:i + 8], 2) for i in range(0, whole, 8))
+
+
+def text_class(t):
+    has_d = any(c in "0123456789" for c in t)
+    nl = sum(c.isalpha() for c in t)
+    up, lo = any(c.isupper() for c in t), any(c.islower() for c in t)
+    kind = "empty" if not t else "digits-only" if nl == 0 else "letters-only" if not has_d else \
+        "one-letter-among-digits" if nl == 1 else "letters-and-digits"
+    return kind + ("" if nl == 0 else "/mixed-case" if up and lo else "/upper" if up else "/lower")
+
+
+def p_bc32_text(t):
+    """bc32decode of a text agrees with the independent decoder: exactly its bytes, or refused (None / exception) where
+    the text is mixed-case, mis-check-summed or not a whole number of bytes; a decodable text is what bc32encode
+    writes for its bytes"""
+    t = T(t)
+    want = ref_bc32_dec(t)
+    got, e = _exc(bech32.bc32decode, t)
+    if want is None:
+        if e is None and got is not None:
+            return f"bc32decode accepts {t[:70]!r} ({text_class(t)}) and gives {bytes(got)[:20]!r}"
+        return None
+    if e is not None or got != want:
+        return (f"bc32decode refuses / garbles the valid bc32 text {t[:70]!r} ({text_class(t)}, {len(want)} bytes): "
+                f"{'raises ' + type(e).__name__ if e is not None else repr(got)[:40]}")
+    enc, e = _exc(bech32.bc32encode, want)
+    if e is not None or enc != t.lower():
+        return f"bc32encode of {want.hex()[:40]} is not the text {t.lower()[:70]!r} that decodes to it"
+    return None
+
+
+def _case(s, case, r=None):
+    """0 as is (lower), 1 upper, 2 'UR:BYTES' upper only, 3 everything after the scheme upper, 4 alternating"""
+    if case == 0:
+        return s
+    if case == 1:
+        return s.upper()
+    if case == 2:
+        return s[:8].upper() + s[8:]
+    if case == 3:
+        return s[:8] + s[8:].upper()
+    return "".join(c.upper() if i % 2 else c for i, c in enumerate(s))
+
+
+def p_bcur_text(payload, case, y):
+    """the BCUR strings of a payload (built here from the reference codecs) in a given case pattern — the parser
+    lower()s the whole string, so every pattern is the same message: every form parses to exactly the payload"""
+    enc, chk = ref_bc32(ref_cbor(payload)), ref_chk(payload)
+    cls = text_class(enc)
+    forms = [f"ur:bytes/{enc}", f"ur:bytes/{chk}/{enc}", f"ur:bytes/1of1/{chk}/{enc}"]
+    for s in forms:
+        s = _case(s, case)
+        o, e = _exc(bcur.BCURSingle.parse, s)
+        if e is not None or a2b_base64(o.text_b64) != payload:
+            return f"BCURSingle.parse refuses / garbles {s[:90]!r} (payload text {cls})"
+        h, e = _exc(bcur._parse_bcur_helper, s)
+        if e is not None or h[0] != enc or (h[1] or chk) != chk or (h[2], h[3]) != (1, 1):
+            return f"_parse_bcur_helper refuses / garbles {s[:90]!r} (payload text {cls})"
+    y = max(1, min(y, len(enc)))
+    y = -(-len(enc) // -(-len(enc) // y))                        # a part count encode() can produce (no empty part)
+    for strings in ([forms[0]], [forms[1]], ref_parts_y(payload, y)):
+        strings = [_case(s, case) for s in strings]
+        r, e = _exc(_parse, strings)
+        if e is not None or r != payload:
+            return f"BCURMulti.parse refuses / garbles the {len(strings)} part(s) {strings[0][:90]!r}… (payload text {cls})"
+    for c in (None, chk):
+        r, e = _exc(bcur.bcur_decode, enc, c)
+        if e is not None or r != payload:
+            return f"bcur_decode refuses / garbles {enc[:70]!r} ({cls})"
+    got, e = _exc(bcur.bcur_encode, payload)
+    if e is not None or tuple(got) != (enc, chk):
+        return "bcur_encode differs from the reference"
+    return None
+
+
+def p_helper_fields(chk, payload, x, y, case):
+    """_parse_bcur_helper on bech32-alphabet fields of any character class (digits only, letters only, ...):
+    returns the lower-cased fields and the numbers"""
+    chk, payload = T(chk), T(payload)
+    s = _case(f"ur:bytes/{x}of{y}/{chk}/{payload}", case)
+    h, e = _exc(bcur._parse_bcur_helper, s)
+    if e is not None:
+        return f"_parse_bcur_helper refuses {s[:100]!r} (checksum {text_class(chk)}, payload {text_class(payload)})"
+    if tuple(h) != (payload, chk, x, y):
+        return f"_parse_bcur_helper({s[:100]!r}) returns {h!r:.120}"
+    return None
+
 
 PROPS = {"cbor_rt": p_cbor_rt, "convertbits_rt": p_convertbits_rt, "bc32_rt": p_bc32_rt, "bc32_sub": p_bc32_sub,
          "multi_rt": p_multi_rt, "multi_select": p_multi_select, "multi_tamper": p_multi_tamper,
          "part_sub": p_part_sub, "bcur_session": p_bcur_session, "part_sub_unicode": p_part_sub_unicode,
          "str_types": p_str_types, "single_header": p_single_header, "default_chunk": p_default_chunk,
          "helper_error_class": p_helper_error_class, "str_types_strict": p_str_types_strict, "noncanon": p_noncanon,
-         "ctor": p_ctor, "polymod_ref": p_polymod_ref}
+         "ctor": p_ctor, "polymod_ref": p_polymod_ref, "bc32_text": p_bc32_text, "bcur_text": p_bcur_text,
+         "helper_fields": p_helper_fields}
 
 # ---------------------------------------------------------------- generators
 
@@ -1017,6 +1178,180 @@ def hardening(ctx):
         yield ("prop", "ctor", [payload, other])
 
 
+def _txt(syms):
+    return "".join(B32[s] for s in syms)
+
+
+def _case_variants(t):
+    """a lower-case text in every case class it can take: lower, upper and - from two letters on - mixed (one letter
+    differing from the rest at the first / a middle / the last letter, data part and checksum part in different case)"""
+    out = [t, t.upper()]
+    L = [i for i, c in enumerate(t) if c.isalpha()]
+    if len(L) >= 2:
+        for j in (L[0], L[len(L) // 2], L[-1]):
+            out.append(t[:j] + t[j].upper() + t[j + 1:])
+            out.append(t[:j].upper() + t[j] + t[j + 1:].upper())
+        out += [t[:-6] + t[-6:].upper(), t[:-6].upper() + t[-6:]]
+    seen = []
+    for v in out:
+        if v not in seen:
+            seen.append(v)
+    return seen
+
+
+def _with(base, positions, cls, n):
+    return [cls if i in positions else base for i in range(n)]
+
+
+def cbor_classes(n):
+    """per-position symbol classes of the bc32 text of the CBOR wrapping of an n-byte payload: the header bits are
+    fixed, the padding bits of the last symbol are zero; returns (classes, header length, positions touched by the header)"""
+    h = ref_cbor(bytes(n))
+    h = h[:len(h) - n]
+    N = len(h) + n
+    m = -(-8 * N // 5)
+    p = 5 * m - 8 * N
+    fixed = "".join(format(b, "08b") for b in h)
+    cls = []
+    for i in range(m):
+        fb = fixed[5 * i:5 * i + 5]
+        cls.append([s for s in range(32) if format(s, "05b").startswith(fb) and (i < m - 1 or s & ((1 << p) - 1) == 0)])
+    return cls, len(h), -(-len(fixed) // 5), p
+
+
+def charclass(ctx):
+    """bc32 / BCUR texts by CHARACTER CLASS (digits only, letters only, one letter among digits, one digit among
+    letters, two letters among digits) x case class (lower, upper, mixed) x length class (every symbol count mod 8,
+    zero / non-zero padding), all constructed with a valid checksum; see the comment above grind()"""
+    r = ctx.rng
+    quick = ctx.tier == "quick"
+    D, A = _DIG, _LET
+    # ---- raw bc32 texts
+    ms = (list(range(0, 17)) + [18, 20, 21, 23, 24, 26, 29, 32, 40, 45, 64, 93]) if quick else list(range(0, 131)) + [160, 400, 1600]
+    for m in ms:
+        p = 5 * m % 8                      # padding bits when the symbols are whole bytes (p < 5), else not whole bytes
+        j = r.randrange(m) if m else 0
+        j2 = r.randrange(m) if m else 0
+        jc = r.randrange(6)
+        specs = [("digits", [D] * m, [D] * 6), ("letters", [A] * m, [A] * 6),
+                 ("one-letter-chk", [D] * m, _with(D, {jc}, A, 6)), ("two-letters-chk", [D] * m, _with(D, {jc, (jc + 1 + m % 5) % 6}, A, 6))]
+        if m:
+            specs += [("one-letter-data", _with(D, {jj}, A, m), [D] * 6) for jj in sorted({0, j, m - 1} if not quick else {(0, j, m - 1)[m % 3]})]
+            specs += [("one-digit-data", _with(A, {j}, D, m), [A] * 6), ("one-digit-chk", [A] * m, _with(A, {jc}, D, 6)),
+                      ("letter-in-data-and-chk", _with(D, {j}, A, m), _with(D, {jc}, A, 6))]
+            if m > 1 and j != j2:
+                specs.append(("two-letters-data", _with(D, {j, j2}, A, m), [D] * 6))
+        if quick:                          # the digit-only / single-letter classes always, two of the others per length
+            keep = ("digits", "letters", "one-letter-chk", "one-letter-data")
+            rest = [sp for sp in specs if sp[0] not in keep]
+            specs = [sp for sp in specs if sp[0] in keep] + r.sample(rest, min(2, len(rest)))
+        for name, dcls, ccls in specs:
+            variants = [("any", dcls)]
+            if m and p < 5 and p:
+                mask = (1 << p) - 1
+                variants = [("zero-pad", dcls[:-1] + [[s for s in dcls[-1] if s & mask == 0]]),
+                            ("nonzero-pad", dcls[:-1] + [[s for s in dcls[-1] if s & mask]])]
+                if quick and name not in ("digits", "one-letter-chk", "one-letter-data"):
+                    variants = [r.choice(variants)]
+            for vname, cl in variants:
+                g = grind(r, cl, ccls)
+                if g is None:
+                    ctx.label(f"charclass/bc32/no-such-text/{name}")
+                    continue
+                t = _txt(g)
+                d = ref_bc32_dec(t)
+                vs = _case_variants(t)
+                for v in (vs if not quick or len(vs) < 5 else vs[:2] + r.sample(vs[2:], 2)):
+                    ctx.label(f"charclass/bc32/{text_class(v)}/" + ("decodable" if ref_bc32_dec(v) is not None else
+                                                                    "refused-mixed-case" if d is not None else "refused-not-whole-bytes"))
+                    yield ("corr", "bc32decode", [v.encode()])
+                    yield ("prop", "bc32_text", [v.encode()])
+                if d is not None:
+                    yield ("corr", "bc32encode", [d])
+                    yield ("prop", "bc32_rt", [d])
+                    yield ("prop", "convertbits_rt", [d])
+                    if name in ("digits", "letters", "one-letter-chk") or not quick:
+                        yield ("prop", "bc32_sub", [d, r.randrange(len(t))])
+    # texts that only LOOK like a class member: digits that are not in the alphabet, a lone wrong symbol
+    for t in ["1" * 6, "0" * 6, "2" * 6, "000000", "9" * 13, "98776268709", "03625989304", "98776268701", "98776268708",
+              "9877626870", "987762687099", "27968439044904", "27968439044904 ", " 27968439044904", "2796843904490\xb2",
+              "Q" * 6, "q2", "2q", "2Q", "2Qq", "q2Q", "Q2Q", "q2q", "2" * 5 + "q", "2" * 5 + "Q", "l" * 6, "L" * 6, "lL" * 3]:
+        ctx.label("charclass/bc32/handmade")
+        if all(ord(c) < 128 for c in t):
+            yield ("corr", "bc32decode", [t.encode()])
+        yield ("prop", "bc32_text", [t.encode("latin-1")])
+    # ---- the BCUR string layer: payloads whose bc32 text (CBOR header included) falls into a class
+    ns = (list(range(0, 27)) + [32, 100, 255, 256, 1000]) if quick else list(range(0, 301)) + [1000, 65535, 65536]
+    for n in ns:
+        cls, hl, hpos, p = cbor_classes(n)
+        m = len(cls)
+        cut = lambda base, free: [[s for s in c if i in free or s in base] for i, c in enumerate(cls)]  # noqa: E731
+        head = set(range(hpos))
+        j = r.randrange(hpos, m) if m > hpos else m - 1
+        specs = [("digits", cut(D, ())), ("letters", cut(A, ())), ("digits-after-header", cut(D, head)),
+                 ("digits-but-header-and-last", cut(D, head | {m - 1})), ("digits-but-last", cut(D, {m - 1})),
+                 ("one-letter", cut(D, ())[:j] + [[s for s in cls[j] if s in A]] + cut(D, ())[j + 1:]),
+                 ("letters-after-header", cut(A, head))]
+        for name, cl in specs:
+            ccls = [A] * 6 if name.startswith("letters") else [D] * 6
+            g = grind(r, cl, ccls, prefixes=60)
+            if g is None:
+                ctx.label(f"charclass/bcur/no-such-text/{name}")
+                continue
+            enc = _txt(g)
+            cb = ref_bc32_dec(enc)
+            payload = cb[hl:]
+            assert ref_cbor(payload) == cb and ref_bc32(cb) == enc, "generator: constructed text is not a CBOR wrapping"
+            chk = ref_chk(payload)
+            forms = [f"ur:bytes/{enc}", f"ur:bytes/{chk}/{enc}", f"ur:bytes/1of1/{chk}/{enc}"]
+            y = r.choice([1, 2, 3, 5])
+            parts = ref_parts_y(payload, -(-len(enc) // -(-len(enc) // min(y, len(enc)))))
+            digity = not name.startswith("letters")
+            for case in (range(5) if not quick else [0, 1, r.choice([2, 3, 4])] if digity else [r.randrange(5)]):
+                ctx.label(f"charclass/bcur/payload-{text_class(enc).split('/')[0]}/case{case}")
+                yield ("prop", "bcur_text", [payload, case, y])
+                for s in (forms if case < 2 and digity else [r.choice(forms)]):
+                    yield ("corr", "single_parse_str", [_case(s, case).encode()])
+                yield ("corr", "parse_helper_str", [_case(r.choice(forms), case).encode()])
+                yield ("corr", "multi_parse_str", [[_case(s, case).encode() for s in r.choice([parts, forms[:1], forms[1:2]])]])
+            yield ("corr", "bc32decode", [enc.encode()])
+            yield ("corr", "bc32decode", [enc.upper().encode()])
+            yield ("prop", "bc32_text", [enc.encode()])
+            yield ("prop", "bc32_text", [enc.upper().encode()])
+            yield ("corr", "bcur_decode", [enc.encode(), []])
+            yield ("corr", "bcur_decode", [r.choice([enc, enc.upper()]).encode(), [r.choice([chk, chk.upper()]).encode()]])
+            yield ("corr", "bcur_encode", [payload])
+            if r.random() < 0.5:
+                yield ("corr", "single_encode_str", [payload, r.randrange(2)])
+                yield ("corr", "multi_parse", [[unfmt(t) for t in parts]])
+            else:
+                yield ("corr", "multi_encode_str", [payload, max(1, -(-len(enc) // y)), 1])
+                yield ("corr", "single_parse", [[r.choice([2, 3, 4]), 1, 1, chk, enc]])
+            yield ("prop", "multi_rt", [payload, max(1, -(-len(enc) // y))])
+            if name in ("digits", "letters", "one-letter"):
+                yield ("prop", "single_header", [payload, 1, 1, r.randrange(2)])
+                yield ("prop", "ctor", [payload, payload[:-1] + bytes([payload[-1] ^ 1]) if payload else b"\x01"])
+                yield ("prop", "noncanon", [payload, 1, b"\x00", 1])
+    # ---- header fields of every character class through _parse_bcur_helper (charset check of checksum and payload)
+    dig, let = "".join(B32[i] for i in D), "".join(B32[i] for i in A)
+    rs = lambda alphabet, k: "".join(r.choice(alphabet) for _ in range(k))  # noqa: E731
+    chks = ["", rs(dig, 58), rs(let, 58), "2" * 58, "q" * 58, rs(dig, 57) + r.choice(let), r.choice(let) + rs(dig, 57), rs(B32, 58)]
+    pays = ["", "2", "q", rs(dig, 5), rs(dig, 40), rs(let, 5), rs(let, 40), rs(dig, 7) + r.choice(let), r.choice(let) + rs(dig, 7),
+            rs(dig, 3) + r.choice(let) + rs(dig, 3), rs(let, 3) + r.choice(dig) + rs(let, 3), rs(B32, 30)]
+    for c in chks:
+        for pl in pays:
+            x, y = r.choice([(1, 1), (1, 2), (2, 2), (3, 7), (10, 10)])
+            case = r.randrange(5)
+            ctx.label(f"charclass/helper/checksum-{text_class(c).split('/')[0]}/payload-{text_class(pl).split('/')[0]}")
+            yield ("prop", "helper_fields", [c.encode(), pl.encode(), x, y, case])
+            s = _case(f"ur:bytes/{x}of{y}/{c}/{pl}", case)
+            yield ("corr", "parse_helper_str", [s.encode()])
+            yield ("corr", "multi_parse_str", [[s.encode()]])
+            if c:
+                yield ("corr", "parse_helper_str", [_case(f"ur:bytes/{c}/{pl}", case).encode()])
+            yield ("corr", "parse_helper_str", [_case(f"ur:bytes/{pl}", case).encode()])
+            yield ("corr", "single_parse_str", [_case(f"ur:bytes/{pl}", case).encode()])
+
 
 def generate(ctx):
     r = ctx.rng
@@ -1195,5 +1530,7 @@ def generate(ctx):
     yield from string_layer(ctx)
     # ---------------- classes added by the mutation triage
     yield from hardening(ctx)
+    # ---------------- bc32 / BCUR texts by character class (digits only, letters only, one letter, case classes)
+    yield from charclass(ctx)
     # ---------------- histories: long-lived BCUR objects, parse / codecs called repeatedly on nearly equal payloads
     yield from histories(ctx)
